@@ -13,7 +13,7 @@ EXPLANATION = ('Decided: status() reads size, max_size and users while the slots
                'by resize and the constructor.')
 
 
-def atomic_updates(prog, r, owner, field):
+def atomic_updates(prog, r, owner, field, extra_body=None):
     out = []
     for b in managed_bodies(prog):
         an = prog.an(b)
@@ -24,6 +24,8 @@ def atomic_updates(prog, r, owner, field):
             for n in t.callee_names():
                 if n.startswith('std::sync::atomic::Atomic') and n.split('::')[-1] in ('fetch_add', 'fetch_sub', 'store', 'swap', 'fetch_update', 'compare_exchange'):
                     if t.args and ('field', '%s.%s' % (owner, field)) in sources(an, t.args[0]):
+                        out.append((b, blk, n.split('::')[-1], an.resolve_operand(t.args[1]) if len(t.args) > 1 else ''))
+                    elif t.args and extra_body is not None and b.path == extra_body:
                         out.append((b, blk, n.split('::')[-1], an.resolve_operand(t.args[1]) if len(t.args) > 1 else ''))
                     break
     return out
@@ -101,13 +103,15 @@ def run(ctx):
             ctx.ob('R11.4', 'Status.%s is the right difference' % nm, okd, ctx.where(st, s.line), '', construct='status:diff:' + nm)
 
     # ---- R11.2 counter discipline -----------------------------------------------------------------
-    ups = atomic_updates(prog, r, r.INNER, r.USERS)
+    _ug = r.users_guard()
+    ups = atomic_updates(prog, r, r.INNER, r.USERS, extra_body=_ug[3][1] if _ug[3][0] == 'direct' else None)
     table = sorted((b.name, op, amt) for b, blk, op, amt in ups)
     for b, blk, op, amt in ups:
         ctx.saw(b)
     root = r.TIMEOUT_GET
-    clos = [b.name for b, _, _, _ in ups if b.kind == 'Closure' and b.name.startswith(root.name) and b.path != root.path]
-    exp = sorted([(root.name, 'fetch_add', '1_usize')] + [(c, 'fetch_sub', '1_usize') for c in clos[:1]] +
+    UG, ug_bb, ug_stmt, ug_how, ug_drop = r.users_guard()
+    gname = prog.bodies[ug_how[1]].name
+    exp = sorted([(root.name, 'fetch_add', '1_usize'), (gname, 'fetch_sub', '1_usize')] +
                  [(h.name, 'fetch_sub', '1_usize') for h in r.RETURN + r.TAKE if h.path not in (r.OBJ_DROP.path, r.OBJ_TAKE.path)])
     ctx.ob('R11.2', 'users: one +1 at getter entry, -1 in the guard closure, the return helper and the take helper', table == exp, '',
            'found %s, expected %s' % (table, exp), construct='users-inventory', sites=[str(t_) for t_ in table])
@@ -119,7 +123,13 @@ def run(ctx):
             if b.blocks[bb].cleanup:
                 continue
             sz.append((b, bb, s, classify_write(ban, s)))
-    got = sorted((b.name, op, 'len' if 'len' in v else v) for b, bb, s, (op, v) in sz)
+    got = sorted({(b.name, op, 'len' if 'len' in v else v) for b, bb, s, (op, v) in sz})
+    # several sites in one function are fine as long as no path executes two of them
+    for b in {x[0].path: x[0] for x in sz}.values():
+        ban = prog.an(b)
+        mine = [bb for b2, bb, s, w in sz if b2.path == b.path and w[0] == '-=']
+        twice = [(x, y) for x in mine for y in mine if x != y and y in ban.reach_after(x, ('normal',))] + [x for x in mine if in_cycle(ban, x) and b.path not in (r.RESIZE.path, r.CLOSE.path)]
+        ctx.ob('R11.2', 'no path decrements size twice', not twice, ctx.where(b), str(twice), construct='size-dec-twice:' + b.name)
     cres = [prog.bodies[p].name for p in r.GETTER if manager_calls(prog.bodies[p], MANAGER_CREATE)]
     exp = sorted([(cres[0], '+=', '1_usize')] if cres else []) + []
     exp = sorted(exp + [(r.UNREADY_DROP.name, '-=', '1_usize'), (r.RESIZE.name, '-=', '1_usize'), (r.CLOSE.name, '-=', '1_usize'), (r.RETAIN.name, '-=', 'len')] +
